@@ -127,7 +127,8 @@ typedef struct { m_evt_t *e; m_evt_t copy; int type; long long key; int data; bo
 static ret_t RET[256]; static int nret;
 
 /* current batch per nesting depth */
-#define MAXDEPTH 12
+#define MAXDEPTH 24
+#define SCRIPT_DEPTH 10     /* callbacks nested deeper than this are traced but run no script ops (bounds re-entrancy) */
 static const m_evt_t *cur_evts[MAXDEPTH][128]; static int cur_nevts[MAXDEPTH];
 static int cur_slot[MAXDEPTH]; static int depth;   /* callback nesting depth; 0 = outside callbacks */
 static atomic_int in_blocking;
@@ -304,7 +305,7 @@ static bool generic_cb(m_mod_t *self, int kind) {
     depth++; cur_slot[depth] = si; cur_nevts[depth] = 0;
     tr("B %d %s %d -1 %d", si, kindnames[kind], n, depth);
     observe();
-    if (sc) run_ops(sc);
+    if (sc && depth <= SCRIPT_DEPTH) run_ops(sc);
     int ret = sc ? sc->ret : 1;
     observe();
     tr("E %d %s %d %d", si, kindnames[kind], n, ret);
@@ -365,7 +366,7 @@ static void evt_common(m_mod_t *self, const m_queue_t *const evts, int hidx) {
         i++;
     }
     cur_nevts[depth] = i < 128 ? i : 128;
-    if (sc) run_ops(sc);
+    if (sc && depth <= SCRIPT_DEPTH) run_ops(sc);
     observe();
     tr("E %d evt %d 0", si, n);
     depth--;
